@@ -243,7 +243,10 @@ def main(argv: list[str]) -> int:
     # ---- verdict -----------------------------------------------------------------------------
     violations = []
     known_seen = []
-    os.makedirs(os.path.join(ROOT, "replays", prop), exist_ok=True)
+    rdir = os.path.join(ROOT, "replays", prop)
+    if not args.only:
+        shutil.rmtree(rdir, ignore_errors=True)  # witnesses of this run only
+    os.makedirs(rdir, exist_ok=True)
     for key, lst in sorted(fails_by_key.items()):
         if key in known:
             known_seen.append((key, len(lst)))
